@@ -2087,6 +2087,154 @@ def rule_orthogonalised_vectors_are_tested_before_normalising(eng, rep, rule="C0
     rep.require_count(rule, "normalisations of orthogonalised vectors", nsite, 2)
 
 
+_FMT_CONV = None
+
+
+def _tuple_kind(eng, fi, cfg, at, e, depth=3):
+    """'tuple' | 'plain' | '?' : can the value of expression e (evaluated in statement `at` of fi) be a tuple?  Local reasoning: literals, constructor calls,
+    reaching definitions of locals, the return expressions of resolved internal callees (by position for destructured results)."""
+    if isinstance(e, ast.Tuple):
+        return "tuple"
+    if isinstance(e, (ast.Constant, ast.JoinedStr, ast.List, ast.ListComp, ast.Dict, ast.Set, ast.Compare, ast.BoolOp, ast.UnaryOp, ast.DictComp, ast.SetComp, ast.GeneratorExp)):
+        return "plain"
+    if isinstance(e, ast.BinOp):
+        kinds = {_tuple_kind(eng, fi, cfg, at, e.left, depth), _tuple_kind(eng, fi, cfg, at, e.right, depth)}
+        if isinstance(e.op, ast.Add) and "tuple" in kinds:
+            return "tuple"
+        return "plain" if kinds == {"plain"} else "?"
+    if isinstance(e, ast.IfExp):
+        kinds = {_tuple_kind(eng, fi, cfg, at, e.body, depth), _tuple_kind(eng, fi, cfg, at, e.orelse, depth)}
+        return "tuple" if "tuple" in kinds else ("plain" if kinds == {"plain"} else "?")
+    if isinstance(e, ast.Call):
+        if isinstance(e.func, ast.Name) and e.func.id == "tuple":
+            return "tuple"
+        if isinstance(e.func, ast.Name) and e.func.id in ("str", "repr", "int", "float", "len", "list", "dict", "bool", "sorted", "sum", "abs", "min", "max", "round"):
+            return "plain"
+        if depth <= 0:
+            return "?"
+        kinds = set()
+        for r in _internal_returns(eng, e):
+            kinds.add(_tuple_kind_in_callee(eng, r, depth - 1))
+        if not kinds:
+            return "?"
+        return "tuple" if "tuple" in kinds else ("plain" if kinds == {"plain"} else "?")
+    if isinstance(e, ast.Name) and cfg is not None and depth > 0:
+        try:
+            defs = cfg.defs_reaching(at, e.id)
+        except Exception:
+            return "?"
+        kinds = set()
+        for d in defs:
+            st = cfg.ast_of(d)
+            kinds.add(_def_kind(eng, fi, cfg, st, e.id, depth - 1))
+        if not kinds:
+            return "?"
+        return "tuple" if "tuple" in kinds else ("plain" if kinds == {"plain"} else "?")
+    return "?"
+
+
+def _internal_returns(eng, call):
+    """(callee FunctionInfo, return value expression) pairs of a resolved internal call; [] if unresolved / not internal."""
+    ci = eng.res.calls.get(id(call))
+    out = []
+    if ci is None:
+        return out
+    for t in ci.targets:
+        fn = getattr(t, "node", None)
+        if not isinstance(fn, ast.FunctionDef):
+            continue
+        for n in eng.prog.own_nodes(t):
+            if isinstance(n, ast.Return) and n.value is not None:
+                out.append((t, n))
+    return out
+
+
+def _tuple_kind_in_callee(eng, tr, depth, position=None):
+    t, ret = tr
+    try:
+        ccfg = eng.cfg(t)
+    except Exception:
+        ccfg = None
+    v = ret.value
+    if position is not None:
+        if isinstance(v, ast.Tuple):
+            if position >= len(v.elts):
+                return "?"
+            v = v.elts[position]
+        else:
+            return "?"
+    return _tuple_kind(eng, t, ccfg, ret, v, depth)
+
+
+def _def_kind(eng, fi, cfg, st, name, depth):
+    if isinstance(st, ast.Assign) and len(st.targets) == 1:
+        tg = st.targets[0]
+        if isinstance(tg, ast.Name) and tg.id == name:
+            return _tuple_kind(eng, fi, cfg, st, st.value, depth)
+        if isinstance(tg, (ast.Tuple, ast.List)):
+            pos = [i for i, el in enumerate(tg.elts) if isinstance(el, ast.Name) and el.id == name]
+            if len(pos) == 1:
+                if isinstance(st.value, ast.Tuple) and len(st.value.elts) == len(tg.elts):
+                    return _tuple_kind(eng, fi, cfg, st, st.value.elts[pos[0]], depth)
+                if isinstance(st.value, ast.Call) and depth >= 0:
+                    kinds = set(_tuple_kind_in_callee(eng, r, depth, position=pos[0]) for r in _internal_returns(eng, st.value))
+                    if kinds:
+                        return "tuple" if "tuple" in kinds else ("plain" if kinds == {"plain"} else "?")
+    return "?"
+
+
+def rule_format_conformance(eng, rep, rule="C07-21.format-strings-bind-their-arguments"):
+    """Every `"literal" % X` of the package (messages of ExitInformation, log lines, __str__): the number of conversions equals the number of arguments handed
+    over, and a single conversion is never handed a value that can be a tuple (a tuple is taken as the argument LIST: TypeError for any length but one) --
+    decided through reaching definitions and the return expressions of internal callees, so a producer that starts returning a tuple and a consumer that
+    drops its str() are seen together."""
+    import re
+    conv = re.compile(r"%(?:\([^)]*\))?[-+ #0]*(?:\*|\d*)(?:\.(?:\*|\d+))?([a-zA-Z%])")
+    n = 0
+    for fi in list(eng.prog.functions.values()):
+        if fi.module.startswith("tests") or ".tests" in fi.module:
+            continue
+        nodes = [x for x in eng.prog.own_nodes(fi) if isinstance(x, ast.BinOp) and isinstance(x.op, ast.Mod) and isinstance(x.left, ast.Constant) and isinstance(x.left.value, str)]
+        if not nodes:
+            continue
+        try:
+            cfg = eng.cfg(fi)
+        except Exception:
+            cfg = None
+        for node in nodes:
+            fmt = node.left.value
+            if "%(" in fmt:
+                continue        # mapping form: not used for positional arguments
+            specs = [m for m in conv.finditer(fmt) if m.group(1) != "%"]
+            convs = [m.group(1) for m in specs]
+            stars = sum(m.group(0).count("*") for m in specs)
+            n += 1
+            key = "%s.%s|%s" % (fi.module, fi.qualname, fmt.strip()[:40])
+            if isinstance(node.right, ast.Tuple):
+                if any(isinstance(el, ast.Starred) for el in node.right.elts):
+                    rep.unknown(rule, eng.where(fi, node), "starred element in the argument tuple of %r" % fmt[:40])
+                elif len(node.right.elts) != len(convs) + stars:
+                    rep.bad(rule, eng.where(fi, node), "format-arity|" + key, "format string %r has %d conversions but is handed %d arguments (TypeError when the line runs)"
+                            % (fmt[:50], len(convs) + stars, len(node.right.elts)))
+                else:
+                    rep.ok(rule, eng.where(fi, node), "%d conversions, %d arguments" % (len(convs), len(node.right.elts)))
+                continue
+            at = eng.prog.stmt_of(node)
+            k = _tuple_kind(eng, fi, cfg, at, node.right) if cfg is not None and not fi.is_lambda else _tuple_kind(eng, fi, None, at, node.right)
+            if k == "tuple":
+                rep.bad(rule, eng.where(fi, node), "tuple-as-argument-list|" + key,
+                        "the right operand of %r %% %s can be a tuple: it is taken as the argument list of the format (TypeError unless it has exactly %d element(s))"
+                        % (fmt[:50], short(node.right, 40), len(convs) + stars))
+            elif len(convs) + stars != 1:
+                if k == "plain":
+                    rep.bad(rule, eng.where(fi, node), "format-arity|" + key, "format string %r has %d conversions but is handed one non-tuple value" % (fmt[:50], len(convs) + stars))
+                else:
+                    rep.unknown(rule, eng.where(fi, node), "format %r with %d conversions applied to %s whose shape is not decided" % (fmt[:40], len(convs) + stars, short(node.right, 40)))
+            else:
+                rep.ok(rule, eng.where(fi, node), "one conversion, operand %s (%s)" % (short(node.right, 40), "never a tuple" if k == "plain" else "no tuple-valued definition reaches it"))
+    rep.require_count(rule, "format expressions of the package", n, 20)
+
+
 def run(eng, rep):
     rep.explain("C07: call conformance of every resolved internal call (T10); shape of the graceful input-error path in solve (T2); "
                 "guard present for each documented invalid-argument class (frozen table, matched on normalised conditions); "
@@ -2121,5 +2269,6 @@ def run(eng, rep):
     rep.guarded(rule_while_loops_are_bounded, eng, rep)
     rep.guarded(rule_exit_results_are_tested_before_the_loop_goes_round, eng, rep)
     rep.guarded(rule_orthogonalised_vectors_are_tested_before_normalising, eng, rep)
+    rep.guarded(rule_format_conformance, eng, rep)
     from . import c20
     c20.rule_str_never_formats_none(eng, rep, rule="C07-8.printing")
